@@ -495,12 +495,28 @@ def c06(tier):
             sc = mk_scen(bb, dict(size=2, max_nodes=2, nproc=q1), assign=tuple(i % 2 for i in range(len(bb))))
             sc["groups"][1]["nproc"] = q2
             tasks.append(dict(id=f"c06-2groups-{g}-q{q1}-q{q2}", scen=sc, oracles=["Obs", "C06"], budget=(0, 0) if tier == "quick" else (1, 0), cls="2groups"))
-    # a failing status query must not make the limit forgettable
+    # a resubmission with new submitter parameters (-s groups file): the new process limit applies
+    import copy
+
+    for g in ("indep3", "indep4"):
+        bb = S.REP[g]
+        n = len(bb)
+        for q1, q2 in ((2, 1), (None, 1), (1, 2)):
+            actors = [rec_actor(n), dict(name="resub", argv=resub_argv(1, 1, 1) + ["-s", "{in}/groups2.json"], host="login1", guard="complete"),
+                      dict(name="rec2", argv=["jade", "try-submit-jobs", "{out}"], host="login2", guard="idle_incomplete", after="resub", repeat=n + 2)]
+            sc = mk_scen(bb, dict(size=n, max_nodes=None, nproc=q1), actors=actors)
+            sc2 = copy.deepcopy(sc)
+            sc2["groups"][0]["nproc"] = q2
+            sc["aux_files"] = {"groups2.json": S.groups_file_text(sc2)}
+            sc["resubmit_nproc"] = q2
+            tasks.append(dict(id=f"c06-resub-groups-{g}-q{q1}-q{q2}", scen=sc, oracles=["Obs", "C06"], budget=(0, 0), cls="resubmit+new-groups"))
+    # a failing status query / a lock timeout in a round must not make the limit forgettable
     for t in rep_tasks(["C06"], (0, 1), graphs=["indep3", "indep4"], params=[("sz1-mx1", dict(size=1, max_nodes=1)), ("sz1-mx2", dict(size=1, max_nodes=2))]):
-        t["fault"] = dict(plan="c11", kinds=["squeue"])
-        t["id"] += "-squeue-fault"
+        t["fault"] = dict(plan="c11", kinds=["squeue", "lock"])
+        t["id"] += "-squeue-or-lock-fault"
+        t["scen"]["actors"] = [dict(name="rec", argv=["jade", "try-submit-jobs", "{out}"], host="login2", guard="idle_incomplete", repeat=3)]
         tasks.append(t)
-    bounds = f"REP graphs x max-nodes {{1,2}} x processes {{1,2,unset/2 CPUs}} x batch sizes 1-3 at {b[0]} preemption(s); G(3) grid; local mode; failures + cancel flags (incl. a 7-job cancel fan-out in one queue, with up to 2 polls at which nothing finishes); two groups with different process limits; one failing status query (squeue down for a whole round)"
+    bounds = f"REP graphs x max-nodes {{1,2}} x processes {{1,2,unset/2 CPUs}} x batch sizes 1-3 at {b[0]} preemption(s); G(3) grid; local mode; failures + cancel flags (incl. a 7-job cancel fan-out in one queue, with up to 2 polls at which nothing finishes); two groups with different process limits; one failing status query (squeue down for a whole round) or one lock-acquisition timeout in a submitter round; resubmission with a groups file that changes the process limit"
     return explore_check("C06", tier, tasks, S_RULE, COMMON_ASSUMPTIONS, dict(bounds=bounds))
 
 
